@@ -4,6 +4,7 @@
 package netstore_test
 
 import (
+	"context"
 	"encoding/binary"
 	"fmt"
 	"sort"
@@ -11,6 +12,8 @@ import (
 	"testing"
 
 	"github.com/gauss-project/aurorafs/pkg/boson"
+	"github.com/gauss-project/aurorafs/pkg/sctx"
+	"github.com/gauss-project/aurorafs/pkg/storage"
 	"github.com/gauss-project/aurorafs/pkg/zzverif/mc"
 	"github.com/gauss-project/aurorafs/pkg/zzverif/nodelite"
 )
@@ -84,6 +87,26 @@ func c12Ops(u *nodelite.Universe, thorough, race bool) []c12Op {
 	unpin := func(f string) c12Op {
 		return c12Op{name: "unpin(" + f + ")", run: func(n *nodelite.Node) string { return fmt.Sprint(n.UnpinAPI(u.ByName[f].Root)) }}
 	}
+	// a download that stopped early: only the root chunk of the file is fetched under the file's
+	// context (the tree stays partly stored and cannot be enumerated)
+	partial := func(f string) c12Op {
+		return c12Op{name: "partial(" + f + ")", run: func(n *nodelite.Node) string {
+			if err := n.FetchChunk(u.ByName[f].Root, u.ByName[f].Root); err != nil {
+				return "err:" + strings.SplitN(err.Error(), ":", 2)[0]
+			}
+			return "ok"
+		}}
+	}
+	// one chunk pinned directly in the store (localstore API), here the root chunk of a file
+	pinroot := func(f string) c12Op {
+		return c12Op{name: "pinroot(" + f + ")", run: func(n *nodelite.Node) string {
+			r := u.ByName[f].Root
+			if err := n.DB.Set(sctx.SetRootHash(context.Background(), r), storage.ModeSetPin, r); err != nil {
+				return "err:" + strings.SplitN(err.Error(), ":", 2)[0]
+			}
+			return "ok"
+		}}
+	}
 	restart := c12Op{name: "restart", run: func(n *nodelite.Node) string {
 		if err := n.Restart(); err != nil {
 			return "err"
@@ -99,7 +122,7 @@ func c12Ops(u *nodelite.Universe, thorough, race bool) []c12Op {
 		return r
 	}
 	ops = append(ops, up("A", false), up("A", true), up("B", false), bytesUp("B", false), bytesUp("B", true),
-		cache("A"), cache("B"), cache("C"), cache("R"), pin("A"), unpin("A"), restart)
+		cache("A"), cache("B"), cache("C"), cache("R"), pin("A"), unpin("A"), restart, partial("C"), pinroot("C"))
 	if thorough {
 		ops = append(ops, chunkUp('x', true), cache("D"))
 	}
